@@ -14,6 +14,9 @@ CONSTANTS
   Hook = FALSE
   Steer = FALSE
   Emit = FALSE
+  Sizes = {1}
+  Targets = {}
+  Canon = FALSE
 INVARIANTS PTypeOK AtMostOnce WaitCovers ExactlyOnceAtQuiescence AddOK Counters NoStranded InflightGuard InflightMeaning Conservation NoStuck
 VIEW View
 CHECK_DEADLOCK FALSE
